@@ -1084,7 +1084,7 @@ package mcp
 // scanEvents (the iterator it returns): an event is dispatched only when a blank line terminated it. The dispatch at
 // end of input after a non-blank line (known finding F5, pinned by the existing test "no trailing newline") hands a
 // cut-off event to the stream processor.
-//@ func scanEvents$1 [C09]
+//@ func scanEvents$1 [C09, C19]
 //@   modifies *
 //@   callee yieldEvent: modifies *
 //@   callee yield: modifies *
